@@ -502,7 +502,19 @@ def evaluate(ctx, exe, mexe, cases, st, record=True):
         tolr = TOL_RAND if c["solver"] == "randomized" else TOL_DENSE
         cscale = 1 + scale_tol(Cm)
         tol = tolr * cscale * D
-        top = ev[-d:]
+        top_sorted = ev[-d:]
+        # the property does not fix the ORDER of the columns: pair the d largest reference eigenvalues
+        # with the columns by the rank of each column's Rayleigh quotient p_c^T C p_c
+        rq = []
+        for cc in range(d):
+            col = [P[t][cc] for t in range(D)]
+            rq.append(sum(col[a] * Cm[a][b] * col[b] for a in range(D) for b in range(D)))
+        order = sorted(range(d), key=lambda cc: rq[cc])
+        top = [None] * d
+        for rank, cc in enumerate(order):
+            top[cc] = top_sorted[rank]
+        if order != list(range(d)):
+            st.bump(st.views, "pca-columns-not-in-ascending-eigenvalue-order")
         cs, ps = fnums(flat(Cm)), fnums(flat(P))
         xs = fnums(flat(c["X"]))
         spec_lines.append("SEIG %d %d %s %s %s %s" % (D, d, fr_hex(tol), cs, ps, fnums(top)))
